@@ -1,4 +1,6 @@
-use super::swift_utils::{parse_amount, parse_date_yymmdd, parse_swift_chars};
+use super::swift_utils::{
+    format_swift_amount_min_decimals, parse_amount, parse_date_yymmdd, parse_swift_chars,
+};
 use crate::errors::ParseError;
 use crate::traits::SwiftField;
 use chrono::NaiveDate;
@@ -244,7 +246,7 @@ impl SwiftField for Field61 {
             result.push(funds_code);
         }
 
-        result.push_str(&format!("{:.2}", self.amount).replace('.', ","));
+        result.push_str(&format_swift_amount_min_decimals(self.amount, 2));
         result.push_str(&self.transaction_type);
         result.push_str(&self.customer_reference);
 
